@@ -8,6 +8,7 @@
 import PV.Model.ChanLoopLemmas
 import PV.Model.ChanNotifyLemmas
 import PV.Generated.ChanLock
+import PV.Generated.C25
 namespace PV.Props.C25
 open PV.Chan
 
@@ -205,5 +206,17 @@ theorem blocked_sendall_is_notified (n : NCfg) (hn : n.adjustAll = true) (cfg : 
   | false =>
     have := hi t hw (of_decide_eq_false hm)
     omega
+
+/-! ## transport loss: channels are closed before the transport starts dropping packets -/
+
+/-- **In the tail of `Transport.run()` every channel is unlinked (closed) BEFORE the transport is marked inactive**
+    (order of the statements after the except ladder, from the AST of transport.py on this run).
+    `_send_user_message` silently drops a packet once `active` is false; that is safe only because by then
+    `Channel._send` raises "Socket is closed" — the model's `unlink` action comes first.  With the order reversed a
+    `sendall` in between returns normally for bytes the transport dropped. -/
+theorem channels_unlinked_before_transport_inactive :
+    "unlink_channels" ∈ PV.Generated.C25.runTail ∧ "set_inactive" ∈ PV.Generated.C25.runTail ∧
+    PV.Generated.C25.runTail.idxOf "unlink_channels" < PV.Generated.C25.runTail.idxOf "set_inactive" := by
+  decide
 
 end PV.Props.C25
